@@ -15,10 +15,14 @@
    either run or was cancelled — and cancelling happens only to the name an operation addresses (or all, for
    clear = what Mode.stop calls).
 
-   Not covered by theorems (validated by correspondence/oracle only): that Mode.stop reaches clear(); the timer
-   device (see NOTES.md). *)
+   Histories include late dispatch ([FireAt u t]: the loop runs handle u at t >= its deadline, possibly several
+   deadlines at once, negative durations): an [ECall] carries the scheduled-for instant, so every statement below is
+   about scheduled-for instants and holds whatever the dispatch latency.
+
+   Ownership: [EClear] marks the return of clear(); Owner.v puts the mode lifecycle of mode.py on top (stop request and
+   wind-up both clear the mode's manager): delay_never_fires_after_clear / delay_never_fires_after_owner_stopped. *)
 From Common Require Import Prelude.
-From C13 Require Import Model Lemmas Timer TimerLemmas.
+From C13 Require Import Model Lemmas Timer TimerLemmas Owner OwnerLemmas.
 Open Scope Z_scope.
 
 (* every event is justified by what happened before it (see [justified] in Lemmas.v):
@@ -76,15 +80,16 @@ Proof. exact check_truthful_state_l. Qed.
 Print Assumptions check_truthful_state.
 
 (* run_now(n) with a pending delay tm: cancels tm's handle, removes the entry, then calls tm's callback with
-   tm's kwargs (whatever the callback then does: [call] is arbitrary) *)
+   tm's kwargs (whatever the callback then does: [call] is arbitrary); a KeyError raised by the callback is swallowed
+   by run_now's `except KeyError` ([catch_key]), any other exception propagates to run_now's caller *)
 Theorem run_now_same_args :
   forall scripts steps call n tm,
     let st := run_from false scripts steps init in
     find (name_is n) (timers st) = Some tm ->
     do_run_now false call n st =
-      call (t_id tm) (t_cb tm) (t_kw tm) true
+      catch_key (call (t_id tm) (t_cb tm) (t_kw tm) true
            (mkS (now st) (next st) (map entry_of (rm n (timers st))) (rm n (timers st))
-                (EKill (t_id tm) :: log st)).
+                (EKill (t_id tm) :: log st))).
 Proof. exact run_now_same_args_l. Qed.
 Print Assumptions run_now_same_args.
 
@@ -115,6 +120,180 @@ Theorem periodic_no_missed_tick :
     exists n, pcalls (snd st) = ticks_desc t0 ival n /\ t <= t0 + (Z.of_nat n + 1) * ival.
 Proof. exact periodic_no_missed_tick_l. Qed.
 Print Assumptions periodic_no_missed_tick.
+
+(* ---- callbacks that raise ([Raise k] in a script; delay_calls_justified / delay_never_twice quantify over such
+   histories too).  Run by the loop: the entry was deleted before the call, so table and handles are exactly those of the
+   other delays; the exception ends in the loop's exception handler (on a real machine that shuts MPF down) *)
+Theorem delay_raising_callback :
+  forall scripts steps u tm k,
+    let st := run_from false scripts steps init in
+    find_timer u (timers st) = Some tm ->
+    (now st <=? t_when tm) && forallb (fun t' => t_when tm <=? t_when t') (timers st) = true ->
+    let st' := fire (raise_cb k) u st in
+    timers st' = rmid u (timers st) /\ dict st' = map entry_of (rmid u (timers st)) /\
+    log st' = ECaught 0 :: ERaise k :: ECall (t_when tm) u (t_cb tm) (t_kw tm) false :: log st.
+Proof. exact raising_callback_l. Qed.
+Print Assumptions delay_raising_callback.
+
+(* script 0 adds "b", raises (its last add is skipped); script 1 raises KeyError.  run_now("b") swallows the KeyError
+   (the delay is gone all the same), the outside caller catches its own exception and goes on; id 0's exception reaches
+   the loop, the delay it added before raising (id 3) and the untouched "c" (id 2) fire as promised *)
+Example ex_raising :
+  trace false [[Add 125 1 (-1) []; Raise 0; Add 125 2 (-1) []]; [Raise 1]; [RunNow 0; Check 0]]
+    [Ext 0 [Add 250 0 0 [7; 7]; Add 500 1 1 []; RunNow 1; Check 1; Raise 0; Add 375 2 2 []]; Fire 0; Fire 3; Fire 2] =
+  [EAdd 0 0 0 250 0 [7; 7]; EAdd 0 1 1 500 1 []; EKill 1; ECall 0 1 1 [] true; ERaise 1; ECaught 1;
+   ECheck 1 false false; ERaise 0; ECaught 2; EAdd 0 2 2 375 2 []; EDict [0; 2];
+   ECall 250000 0 0 [7; 7] false; EAdd 250000 3 1 125 (-1) []; ERaise 0; ECaught 0;
+   ECall 375000 3 (-1) [] false; ECall 375000 2 2 [] false; ECheck 0 false false].
+Proof. vm_compute. reflexivity. Qed.
+Print Assumptions ex_raising.
+
+(* ---- ownership: clear() and the mode lifecycle (Owner.v) ------------------------------------------------- *)
+
+(* clear() is final: every delay added before its return is dead at that point (cancelled or already run) and is
+   never called afterwards, whatever happens later (re-adds under the same names get new ids) *)
+Theorem delay_never_fires_after_clear :
+  forall scripts steps pre post,
+    trace false scripts steps = pre ++ EClear :: post ->
+    forall t0 u n ms c k, In (EAdd t0 u n ms c k) pre ->
+      (In (EKill u) pre \/ called u pre) /\ ~ called u post.
+Proof. exact clear_final_l. Qed.
+Print Assumptions delay_never_fires_after_clear.
+
+(* every event of every mode history (any initial flags, any interleaving of mode code using mode.delay, loop
+   dispatches incl. late ones, and start/_started/stop/_stopped/_mode_stopped_callback calls) is justified: all delay_*
+   statements hold for a mode-owned manager *)
+Theorem mode_delay_calls_justified :
+  forall scripts m0 msteps pre e post,
+    m_trace scripts m0 msteps = pre ++ e :: post -> justified (List.rev pre) e.
+Proof. exact m_justified_l. Qed.
+Print Assumptions mode_delay_calls_justified.
+
+(* no delay owned by a mode fires after that mode's stop was requested (marker 1) nor after the stop has wound up
+   (marker 3): every delay added before the marker is dead at the marker and never called after it — for all histories,
+   including delays added in mode_<m>_stopping handlers / during a held queue (dead at the wind-up marker), restarts
+   (also from a mode_<m>_stopped handler: start() winds the old stop up first) that re-add the same names *)
+Theorem delay_never_fires_after_owner_stopped :
+  forall scripts m0 msteps pre c t post,
+    m_trace scripts m0 msteps = pre ++ EMode c t :: post -> c = 1 \/ c = 3 ->
+    forall t0 u n ms cb k, In (EAdd t0 u n ms cb k) pre ->
+      (In (EKill u) pre \/ called u pre) /\ ~ called u post.
+Proof. exact owner_stopped_l. Qed.
+Print Assumptions delay_never_fires_after_owner_stopped.
+
+(* ... and the markers are really there: Mode.stop() on an active mode that is not yet stopping (at an instant the
+   loop may be at) sets stopping, leaves no handle and no table entry and logs clear + marker 1; the wind-up likewise;
+   a stop of an inactive or already stopping mode touches nothing (delays added since the first request live on until
+   the wind-up) *)
+Theorem mode_stop_clears_all :
+  forall scripts m0 msteps t,
+    let ms := m_run scripts m0 msteps in
+    m_active (fst ms) = true -> m_stopping (fst ms) = false -> ext_ok t (snd ms) = true ->
+    let ms' := m_step scripts ms (MStop t) in
+    m_stopping (fst ms') = true /\ timers (snd ms') = [] /\ dict (snd ms') = [] /\
+    exists rest, log (snd ms') = EDict [] :: EMode (flags_code (fst ms')) t :: EMode 1 t :: EClear :: rest.
+Proof. exact mode_stop_clears_l. Qed.
+Print Assumptions mode_stop_clears_all.
+
+Theorem mode_windup_clears_all :
+  forall scripts m0 msteps t,
+    let ms := m_run scripts m0 msteps in
+    m_cleanup (fst ms) = true -> ext_ok t (snd ms) = true ->
+    let ms' := m_step scripts ms (MWoundUp t) in
+    m_cleanup (fst ms') = false /\ timers (snd ms') = [] /\ dict (snd ms') = [].
+Proof. exact mode_windup_clears_l. Qed.
+Print Assumptions mode_windup_clears_all.
+
+Theorem mode_second_stop_keeps :
+  forall scripts m st t, (m_active m = false \/ m_stopping m = true) ->
+    let ms' := m_step scripts (m, st) (MStop t) in
+    fst ms' = m /\ timers (snd ms') = timers st /\ dict (snd ms') = dict st.
+Proof. exact mode_second_stop_keeps_l. Qed.
+Print Assumptions mode_second_stop_keeps.
+
+(* a mode history: "a" pending at the stop request is killed; the stopping handler re-adds "a" (id 1) and a delay due at
+   once (id 2, fires while the queue is held); the wind-up kills id 1; the mode restarts and re-adds "a" (id 3), which
+   fires.  Both markers, the hypotheses of the theorems above and a non-trivial conclusion. *)
+Definition ex_msteps : list mstep :=
+  [MOps 0 [Add 1000 0 (-1) [1; 1]]; MStop 250000; MOps 250000 [Add 500 0 (-1) [2; 2]; Add 0 1 (-1) []];
+   MFire 2 250000; MStopped 500000; MWoundUp 500000; MStart 625000; MStarted 625000;
+   MOps 625000 [Add 125 0 (-1) [3; 3]]; MFire 3 750000].
+
+Example ex_mode_history :
+  m_trace [] (mkM true false false false) ex_msteps =
+  [EAdd 0 0 0 1000 (-1) [1; 1]; EDict [0];
+   EKill 0; EClear; EMode 1 250000; EMode 19 250000; EDict [];
+   EAdd 250000 1 0 500 (-1) [2; 2]; EAdd 250000 2 1 0 (-1) []; EDict [0; 1];
+   ECall 250000 2 (-1) [] false;
+   EMode 2 500000; EMode 24 500000; EDict [0];
+   EKill 1; EClear; EMode 3 500000; EMode 16 500000; EDict [];
+   EMode 4 625000; EMode 20 625000; EDict []; EMode 5 625000; EMode 17 625000; EDict [];
+   EAdd 625000 3 0 125 (-1) [3; 3]; EDict [0]; ECall 750000 3 (-1) [3; 3] false] /\
+  (let ms := m_run [] (mkM true false false false) [MOps 0 [Add 1000 0 (-1) [1; 1]]] in
+   m_active (fst ms) = true /\ m_stopping (fst ms) = false /\ ext_ok 250000 (snd ms) = true).
+Proof. vm_compute. repeat split; reflexivity. Qed.
+Print Assumptions ex_mode_history.
+
+(* hypotheses of delay_never_fires_after_clear / mode_windup_clears_all on non-trivial histories: "a" (id 0) is pending at
+   the clear, "b" (id 1) has already run; after the clear "a" is re-added (id 2) and fires — the old id 0 never does *)
+Example ex_clear_final :
+  trace false [] [Ext 0 [Add 500 0 (-1) [1; 1]; Add 125 1 (-1) []]; Fire 1; Ext 250000 [Clear; Add 125 0 (-1) [2; 2]]; Fire 2] =
+  [EAdd 0 0 0 500 (-1) [1; 1]; EAdd 0 1 1 125 (-1) []; EDict [0; 1]; ECall 125000 1 (-1) [] false;
+   EKill 0; EClear; EAdd 250000 2 0 125 (-1) [2; 2]; EDict [0]; ECall 375000 2 (-1) [2; 2] false] /\
+  (let ms := m_run [] (mkM true false false false) [MOps 0 [Add 1000 0 (-1) []]; MStop 250000; MStopped 250000] in
+   m_cleanup (fst ms) = true /\ ext_ok 250000 (snd ms) = true).
+Proof. vm_compute. repeat split; reflexivity. Qed.
+Print Assumptions ex_clear_final.
+
+(* DELAYED device control events belong to the mode: [MCtl t ms] adds an anonymous delay to the MODE's manager while the
+   mode's handlers are registered (theorem above: it never fires after the stop request); once the stop has wound up the
+   event has no handler and adds nothing *)
+Example ex_mode_control_event :
+  m_trace [] (mkM true false false false)
+    [MCtl 0 500; MFire 0 500000; MCtl 600000 500; MStop 700000; MStopped 700000; MWoundUp 700000; MCtl 800000 500;
+     MOps 2000000 []] =
+  [EAdd 0 0 (-1) 500 (-2) []; EDict [-1]; ECall 500000 0 (-2) [] false;
+   EAdd 600000 1 (-2) 500 (-2) []; EDict [-2];
+   EKill 1; EClear; EMode 1 700000; EMode 19 700000; EDict [];
+   EMode 2 700000; EMode 24 700000; EDict [];
+   EClear; EMode 3 700000; EMode 16 700000; EDict []; EDict []; EDict []].
+Proof. vm_compute. reflexivity. Qed.
+Print Assumptions ex_mode_control_event.
+
+(* a late loop is still never early and never out of deadline order: running handle u at t before its deadline, or while
+   a live handle with an earlier deadline exists, is not a behaviour of the loop (the model rejects the history; on the
+   implementation side this is asyncio's heap order, validated on every run) *)
+Theorem delay_late_dispatch_never_early :
+  forall call u t st tm,
+    find_timer u (timers st) = Some tm ->
+    (t < t_when tm \/ exists tm', In tm' (timers st) /\ t_when tm' < t_when tm) ->
+    fire_at call u t st = emit (EReject 2) st.
+Proof. exact fire_at_early_rejected_l. Qed.
+Print Assumptions delay_late_dispatch_never_early.
+
+(* late dispatch: the loop wakes at 400 ms, past the deadlines of ids 0 (125 ms) and 1 (250 ms): both run then, in
+   deadline order, recorded with their scheduled-for instants; the re-add made inside the callback counts from the
+   observed instant; running id 1 first, or before its deadline, is rejected *)
+Example ex_late_dispatch :
+  trace false [[Add 125 0 0 []]] [Ext 0 [Add 125 0 0 []; Add 250 1 (-1) [5; 5]]; FireAt 0 400000; FireAt 1 400000;
+                                   FireAt 2 525000] =
+  [EAdd 0 0 0 125 0 []; EAdd 0 1 1 250 (-1) [5; 5]; EDict [0; 1];
+   ECall 125000 0 0 [] false; EAdd 400000 2 0 125 0 []; ECall 250000 1 (-1) [5; 5] false;
+   ECall 525000 2 0 [] false; EAdd 525000 3 0 125 0 []] /\
+  trace false [] [Ext 0 [Add 125 0 (-1) []; Add 250 1 (-1) []]; FireAt 1 400000] =
+  [EAdd 0 0 0 125 (-1) []; EAdd 0 1 1 250 (-1) []; EDict [0; 1]; EReject 2] /\
+  trace false [] [Ext 0 [Add 125 0 (-1) []]; FireAt 0 100000] =
+  [EAdd 0 0 0 125 (-1) []; EDict [0]; EReject 2].
+Proof. vm_compute. repeat split; reflexivity. Qed.
+Print Assumptions ex_late_dispatch.
+
+(* PeriodicTask on a late loop: woken 2.3 intervals late it catches up, one call per missed interval, each for its own
+   instant t0 + k*ival (periodic_no_drift quantifies over these steps too); cancel while a tick is overdue: none after *)
+Example ex_periodic_catch_up :
+  periodic_run (0, 1000, [PRunAt 3300; PRunAt 3300; PRunAt 3300; PRunAt 4000; PCancelAt 5500; PRunAt 5500; PAt 9000]) =
+  ([PCalled 1000; PCalled 2000; PCalled 3000; PCalled 4000], 6000).
+Proof. vm_compute. reflexivity. Qed.
+Print Assumptions ex_periodic_catch_up.
 
 (* ---- timer device (Timer.v): for every configuration c, every sequence of control events at any instants
    (start/stop/pause with and without duration/add/subtract/jump/reset/restart/interval changes) and every legal
@@ -184,12 +363,71 @@ Theorem timer_tick_instants_exact :
 Proof. exact tick_instant_l. Qed.
 Print Assumptions timer_tick_instants_exact.
 
+(* ---- the timer's pause delay as an instance of the full delay model; the timer on a late loop --------------------- *)
+
+(* [dm st] (Timer.v) is the timer's private DelayManager, driven by Model.v's do_add / do_remove / fire / fire_at.  On every
+   reachable timer state it satisfies the invariant [Inv] behind all delay_* theorems, and the deadline [pause st] the
+   timer lemmas talk about is exactly the deadline of its one live handle, named PAUSE, whose callback is start() *)
+Theorem timer_pause_is_delay :
+  forall c steps,
+    let st := trun c steps (tinit c) in
+    Inv (dm st) /\
+    match pause st with
+    | None => timers (dm st) = []
+    | Some d => exists tm, timers (dm st) = [tm] /\ t_name tm = PAUSE /\ t_when tm = d /\ t_cb tm = 0
+    end.
+Proof. exact timer_pause_is_delay_l. Qed.
+Print Assumptions timer_pause_is_delay.
+
+(* so the delay_* statements hold of it: every event of the private manager's log is justified (delay_calls_justified's
+   [justified]): the expiry of a timed pause stems from exactly one pause(ms), is scheduled for exactly its instant + ms,
+   does not happen after start()/stop()/a later pause removed it, and happens at most once *)
+Theorem timer_pause_calls_justified :
+  forall c steps pre e post,
+    List.rev (log (dm (trun c steps (tinit c)))) = pre ++ e :: post -> justified (List.rev pre) e.
+Proof. exact timer_pause_justified_l. Qed.
+Print Assumptions timer_pause_calls_justified.
+
+(* tick instants on a loop that dispatches late: the n-th expiry of the system timer created at b is accepted at any
+   t >= b + n*interval, is reported with that scheduled-for instant, changes the count by exactly one and re-arms for
+   b + (n+1)*interval whatever t was; before its instant it is rejected *)
+Theorem timer_tick_instants_exact_late :
+  forall c st b n t, sys st = Some (b, n) -> running st = true ->
+    (tnow st <=? t) && (b + n * ival st <=? t) && le_opt (b + n * ival st) (pause st) = true ->
+    exists st1, fire_tick_at c t st = post_tick_with (cd0 c) st1 /\
+                tnow st1 = t /\ ticks st1 = (if c_down c then ticks st - 1 else ticks st + 1) /\
+                sys st1 = Some (b, n + 1) /\ ival st1 = ival st /\ tlog st1 = TDue (b + n * ival st) :: tlog st.
+Proof. exact tick_instant_late_l. Qed.
+Print Assumptions timer_tick_instants_exact_late.
+
+Theorem timer_tick_never_early :
+  forall c st b n t, sys st = Some (b, n) -> t < b + n * ival st -> fire_tick_at c t st = post (TReject 2) st.
+Proof. exact tick_early_rejected_l. Qed.
+Print Assumptions timer_tick_never_early.
+
+(* the loop wakes at 1.3 s: the ticks due at 0.5 s and 1.0 s both run then (catch-up, own instants); a timed pause of
+   250 ms is dispatched late at 1.7 s (scheduled for 1.55 s, see the private manager's log); the new system timer counts
+   from the observed start instant; a tick before its instant is rejected *)
+Definition ex_late_tsteps : list tstep :=
+  [TExt 0 AStart; TFireTickAt 1300000; TFireTickAt 1300000; TExt 1300000 (APause 250); TFirePauseAt 1700000;
+   TFireTickAt 2200000; TFireTickAt 2300000].
+Example ex_timer_late :
+  ttrace (ex_cfg false) ex_late_tsteps =
+  [TStarted 0 0; TTick 0 0 true; TState 0 true 0 false true (-1);
+   TDue 500000; TTick 1300000 1 true; TDue 1000000; TTick 1300000 2 true;
+   TPaused 1300000 2; TState 1300000 false 2 true false 1550000;
+   TStarted 1700000 2; TTick 1700000 2 true; TDue 2200000; TTick 2200000 3 true; TReject 2] /\
+  List.rev (log (dm (trun (ex_cfg false) ex_late_tsteps (tinit (ex_cfg false))))) =
+  [EAdd 1300000 0 0 250 0 []; ECall 1550000 0 0 [] false].
+Proof. vm_compute. split; reflexivity. Qed.
+Print Assumptions ex_timer_late.
+
 Example ex_timer :
   ttrace (ex_cfg false) ex_tsteps =
-  [TStarted 0 0; TTick 0 0 true; TState 0 true 0 false true; TTick 500000 1 true;
-   TPaused 600000 1; TState 600000 false 1 true false; TPaused 700000 1; TState 700000 false 1 false false;
+  [TStarted 0 0; TTick 0 0 true; TState 0 true 0 false true (-1); TTick 500000 1 true;
+   TPaused 600000 1; TState 600000 false 1 true false 1600000; TPaused 700000 1; TState 700000 false 1 false false (-1);
    TReject 3; TReject 1] /\ cfg_ok (ex_cfg false) /\
-  is_done (ex_cfg false) (mkTS true 5 500000 None None 0 []) = true.
+  is_done (ex_cfg false) (mkTS true 5 500000 None None init 0 []) = true.
 Proof. vm_compute. repeat split; auto. Qed.
 Print Assumptions ex_timer.
 
